@@ -10,7 +10,10 @@ CONSTANTS
   Trim = TRUE
   TrOnly = FALSE
   AxisBy = "dims"
+  StepPrec = "step"
   QueryCast = "none"
+INVARIANT ImplStep
+INVARIANT LawDenoted
 INVARIANT ImplCountWhenWhole
 INVARIANT ImplCountFloorCeil
 INVARIANT ImplInside
